@@ -122,7 +122,7 @@ def menu(tier):
         for strat in S.STRATEGIES:
             scn.append(S.mk(f'c18/{name}/{strat}', inp, model, strat, 1,
                             S.MUTATOR_SETS[ms],
-                            budget=b if name in ('fresh', 'bool5', 'int')
+                            budget=b if name in ('fresh', 'bool5')
                             else 1))
     return scn
 
@@ -167,7 +167,7 @@ def child_main():
 
 def main(tier):
     rep = common.Reporter(PROP, 'model_checking', tier)
-    seeds = list(range(8 if rep.tier == 'quick' else 16))
+    seeds = list(range(8 if rep.tier == 'quick' else 12))
     procs = []
     for s in seeds:
         env = dict(os.environ, PYTHONHASHSEED=str(s), DDV_NPROC='2')
